@@ -18,11 +18,18 @@ def content_key(data):
     return "%016x#%d" % (fnv(data), len(data))
 
 
-def make_info(rng, idx, paths, marker=None, malformed=False, agree_starts=False):
+def make_info(rng, idx, paths, marker=None, malformed=False, agree_starts=False, branch_only=0.0):
     """a small unique lcov file about 1-2 of the shared source paths"""
     out = "TN:item%d%s\n" % (idx, (" " + marker) if marker else "")
     for p in rng.sample(paths, rng.randrange(1, min(3, len(paths)) + 1)):
         out += "SF:%s\n" % p
+        if rng.random() < branch_only:
+            # a record that carries branch data only (no DA, no FN): legal lcov
+            for l in sorted(rng.sample(range(1, 9), rng.randrange(1, 3))):
+                for n in range(rng.randrange(1, 4)):
+                    out += "BRDA:%d,0,%d,%s\n" % (l, n, rng.choice(["-", "1", "4"]))
+            out += "end_of_record\n"
+            continue
         fns = rng.sample(["f", "g", "h", "café"], rng.randrange(0, 3))
         for f in fns:
             out += "FN:%d,%s\n" % ({"f": 1, "g": 5, "h": 9}.get(f, 3) if agree_starts else rng.choice([1, 5, 9]), f)
